@@ -793,6 +793,8 @@ bool Annotator::assignAllIds()
 {
     auto model = pFunc()->mModel.lock();
     if (model != nullptr) {
+        // The model may have been edited since it was handed over: refresh the list of identifiers in use.
+        pFunc()->update();
         size_t initialSize = pFunc()->idCount();
         pFunc()->doSetAllAutomaticIds();
         return pFunc()->idCount() > initialSize;
@@ -821,6 +823,8 @@ bool Annotator::assignIds(CellmlElementType type)
         return false;
     }
 
+    // The model may have been edited since it was handed over: refresh the list of identifiers in use.
+    pFunc()->update();
     size_t initialSize = pFunc()->idCount();
 
     switch (type) {
